@@ -303,8 +303,8 @@ impl Span {
     requires
         // [SETINFO-PRE] the file description is the one FileInfo::new builds ([NEW-WF]) and the span lies inside that file (spans are
         // token ranges of the lexer over the same text)
-        r#gen.wf(),
-        old(self).span1.0 <= r#gen.text_len && old(self).span1.1 <= r#gen.text_len,
+        $p0.wf(),
+        old(self).span1.0 <= $p0.text_len && old(self).span1.1 <= $p0.text_len,
     ensures
         // [SETINFO-FRAME] the byte range itself is untouched; both `trans_span2` calls meet their precondition (no panic)
         final(self).span1 == old(self).span1,
